@@ -86,6 +86,71 @@ def run : List Op → Auth → Auth × List Ev
 /-- seen set of the namespace an event belongs to -/
 def Auth.seen (a : Auth) (isNode : Bool) : List String := if isNode then a.nnames else a.vnames
 
+def upd {α : Type} (f : Nat → α) (i : Nat) (x : α) : Nat → α := fun j => if j = i then x else f j
+def updS (f : String → Nat) (k : String) (x : Nat) : String → Nat := fun j => if j = k then x else f j
+
+/-! ### Part A, graph level: the objects of one graph and every way a name reaches the authority
+
+`Graph.__init__/append/extend/insert_*` call `register_or_name_*` (`_core.py`,
+`_set_input_and_initializer_value_names_into_name_authority`, `_set_node_graph_to_self_and_assign_names`);
+values joining `graph.inputs / outputs / initializers` (the `_set_graph` hooks of
+`_graph_containers.py`), the constructor's outputs, and the `Value.name` / `Node.name` setters of
+objects owned by the graph call the record-only `register_value_name / register_node_name`.
+Objects are creation indices; `vown` / `nown` are the values / nodes the graph currently owns
+(`value.graph is g`, `node.graph is g`). -/
+
+structure GSt where
+  auth : Auth := {}
+  vname : Nat → Option String
+  nname : Nat → Option String
+  vown : List Nat := []
+  nown : List Nat := []
+
+inductive GOp where
+  /-- `register_or_name_value(value)`: constructor inputs / initializers, outputs of an added node -/
+  | regValue (v : Nat)
+  /-- `register_or_name_node(node)` of a node with this `op_type` -/
+  | regNode (n : Nat) (opType : String)
+  /-- `register_value_name(value.name)`: the value joins inputs / outputs / initializers -/
+  | noteValue (v : Nat)
+  /-- the user's `value.name = name` -/
+  | setValue (v : Nat) (name : Option String)
+  /-- the user's `node.name = name` -/
+  | setNode (n : Nat) (name : Option String)
+  /-- the value is no longer owned by the graph (its node was removed, it was popped from
+  inputs / outputs / initializers) -/
+  | dropValue (v : Nat)
+  | dropNode (n : Nat)
+deriving Repr, DecidableEq
+
+/-- `register_value_name` / `register_node_name`: record, never name -/
+def Auth.note (a : Auth) (isNode : Bool) (name : Option String) : Auth :=
+  match name with
+  | none => a
+  | some s => if isNode then { a with nnames := s :: a.nnames } else { a with vnames := s :: a.vnames }
+
+def gstep (st : GSt) : GOp → GSt
+  | .regValue v =>
+    let r := step st.auth (.value (st.vname v))
+    { st with auth := r.1, vname := upd st.vname v (some r.2.name), vown := v :: st.vown }
+  | .regNode n op =>
+    let r := step st.auth (.node (st.nname n) op)
+    { st with auth := r.1, nname := upd st.nname n (some r.2.name), nown := n :: st.nown }
+  | .noteValue v => { st with auth := st.auth.note false (st.vname v), vown := v :: st.vown }
+  | .setValue v name =>
+    -- `if self._name == value: return`; the owner (if any) learns the new name
+    if st.vname v = name then st else
+    { st with vname := upd st.vname v name,
+              auth := if st.vown.contains v then st.auth.note false name else st.auth }
+  | .setNode n name =>
+    { st with nname := upd st.nname n name,
+              auth := if st.nown.contains n then st.auth.note true name else st.auth }
+  | .dropValue v => { st with vown := st.vown.filter (· != v) }
+  | .dropNode n => { st with nown := st.nown.filter (· != n) }
+
+def grun (ops : List GOp) (st : GSt) : GSt := ops.foldl gstep st
+
+
 
 /-! ## Part B — NameFixPass (`passes/common/naming.py`)
 
@@ -116,8 +181,6 @@ def truthy : Option String → Bool
   | some s => s != ""
   | none => false
 
-def upd {α : Type} (f : Nat → α) (i : Nat) (x : α) : Nat → α := fun j => if j = i then x else f j
-def updS (f : String → Nat) (k : String) (x : Nat) : String → Nat := fun j => if j = k then x else f j
 
 /-- `dict.pop(key)` on an insertion-ordered dict -/
 def dictErase (d : List (String × Nat)) (k : String) : List (String × Nat) := d.filter (fun e => e.1 != k)
@@ -219,13 +282,16 @@ def processValues (st : FixSt) (vs : List Nat) : FixSt := vs.foldl processValue 
 def nodeVals (ins : List (Option Nat)) (outs : List Nat) : List Nat := ins.filterMap id ++ outs
 
 /-- the callback `enter_graph`: push a copy of the parent's value-name set and an empty node-name
-set; inputs, outputs, then (for a `Graph`, not a `Function`) a snapshot of the initializers. -/
-def enterGraph (st : FixSt) (g : Nat) (isGraph : Bool) (ins outs : List Nat) : FixSt :=
+set; inputs, outputs, a snapshot of the initializers (`hasInits`: of the `Graph`, or of the graph
+underlying a `Function`), then the outputs `bouts` of the graph's own nodes — so that nested graphs
+see every name of their enclosing graphs. -/
+def enterGraph (st : FixSt) (g : Nat) (hasInits : Bool) (ins outs bouts : List Nat) : FixSt :=
   if st.raised then st else
   let st := { st with vstack := topOf st.vstack :: st.vstack, nstack := [] :: st.nstack }
   let st := processValues st ins
   let st := processValues st outs
-  if isGraph then processValues st ((st.dicts g).map (·.2)) else st
+  let st := if hasInits then processValues st ((st.dicts g).map (·.2)) else st
+  processValues st bouts
 
 /-- the callback `exit_graph` -/
 def exitGraph (st : FixSt) : FixSt :=
@@ -245,6 +311,13 @@ inductive Tr where
   | graph (gid : Nat) (isGraph : Bool) (ins outs : List Nat) (body : Tr) (rest : Tr)
 deriving Repr
 
+/-- `for node in graph_like: ... node.outputs`: the outputs of the nodes directly in the item
+list `t` -/
+def bodyOuts : Tr → List Nat
+  | .nil => []
+  | .node _ _ outs _ rest => outs ++ bodyOuts rest
+  | .graph _ _ _ _ _ rest => bodyOuts rest
+
 /-- `RecursiveGraphIterator._recursive_node_iter` + `_iterate_subgraphs` (`traversal.py`) with the
 pass's loop body.  A graph attribute is *entered twice* (once by `_iterate_subgraphs`, once by the
 nested iterator's `_recursive_node_iter`) and left twice. -/
@@ -255,8 +328,8 @@ def runTr : Tr → FixSt → FixSt
     let st := runTr subs st
     runTr rest st
   | .graph g isG ins outs body rest, st =>
-    let st := enterGraph st g isG ins outs
-    let st := enterGraph st g isG ins outs
+    let st := enterGraph st g isG ins outs (bodyOuts body)
+    let st := enterGraph st g isG ins outs (bodyOuts body)
     let st := runTr body st
     let st := exitGraph (exitGraph st)
     runTr rest st
@@ -294,7 +367,7 @@ top-level graph is entered once). `modified` of the result = this call's flag. -
 def fixTop (w : World) (t : Top) : FixSt :=
   let res := collectTr w t.tr ([], [])
   let st : FixSt := { toWorld := w, resV := res.1, resN := res.2 }
-  let st := enterGraph st t.gid t.isGraph t.ins t.outs
+  let st := enterGraph st t.gid t.isGraph t.ins t.outs (bodyOuts t.body)
   let st := runTr t.body st
   exitGraph st
 
@@ -318,14 +391,14 @@ names: they describe which values a traversal meets in which scope. -/
 def World.inits (w : World) (g : Nat) : List Nat := (w.dicts g).map (·.2)
 
 /-- values processed by `enter_graph` -/
-def gvals (iv : Nat → List Nat) (g : Nat) (isG : Bool) (ins outs : List Nat) : List Nat :=
-  ins ++ outs ++ (if isG then iv g else [])
+def gvals (iv : Nat → List Nat) (g : Nat) (isG : Bool) (ins outs bouts : List Nat) : List Nat :=
+  ins ++ outs ++ (if isG then iv g else []) ++ bouts
 
 /-- `seen_values` (as a list) after the traversal of `t`, started with `S` -/
 def seenAfter (iv : Nat → List Nat) : Tr → List Nat → List Nat
   | .nil, S => S
   | .node _ ins outs subs rest, S => seenAfter iv rest (seenAfter iv subs (S ++ nodeVals ins outs))
-  | .graph g isG ins outs body rest, S => seenAfter iv rest (seenAfter iv body (S ++ gvals iv g isG ins outs))
+  | .graph g isG ins outs body rest, S => seenAfter iv rest (seenAfter iv body (S ++ gvals iv g isG ins outs (bodyOuts body)))
 
 /-- the values recorded in the *current* scope after the items of `t` (nested graphs record into
 their own scopes: for a list `subs` of graph items `bodyVis subs V = V`) -/
@@ -345,9 +418,9 @@ def scopedB (iv : Nat → List Nat) : Tr → List Nat → List Nat → Bool
     && scopedB iv subs (S ++ nodeVals ins outs) (V ++ nodeVals ins outs)
     && scopedB iv rest (seenAfter iv subs (S ++ nodeVals ins outs)) (bodyVis subs (V ++ nodeVals ins outs))
   | .graph g isG ins outs body rest, S, V =>
-    (gvals iv g isG ins outs).all (fun v => !S.contains v || V.contains v)
-    && scopedB iv body (S ++ gvals iv g isG ins outs) (V ++ gvals iv g isG ins outs)
-    && scopedB iv rest (seenAfter iv body (S ++ gvals iv g isG ins outs)) V
+    (gvals iv g isG ins outs (bodyOuts body)).all (fun v => !S.contains v || V.contains v)
+    && scopedB iv body (S ++ gvals iv g isG ins outs (bodyOuts body)) (V ++ gvals iv g isG ins outs (bodyOuts body))
+    && scopedB iv rest (seenAfter iv body (S ++ gvals iv g isG ins outs (bodyOuts body))) V
 
 /-- for every graph under `t`: the values whose names must be pairwise different — those recorded
 in enclosing scopes before the graph was entered, followed by the graph's own values -/
@@ -356,8 +429,8 @@ def allScopes (iv : Nat → List Nat) : Tr → List Nat → List (List Nat)
   | .node _ ins outs subs rest, V =>
     allScopes iv subs (V ++ nodeVals ins outs) ++ allScopes iv rest (bodyVis subs (V ++ nodeVals ins outs))
   | .graph g isG ins outs body rest, V =>
-    bodyVis body (V ++ gvals iv g isG ins outs)
-      :: (allScopes iv body (V ++ gvals iv g isG ins outs) ++ allScopes iv rest V)
+    bodyVis body (V ++ gvals iv g isG ins outs (bodyOuts body))
+      :: (allScopes iv body (V ++ gvals iv g isG ins outs (bodyOuts body)) ++ allScopes iv rest V)
 
 /-- the nodes directly in the item list `t` (`bodyNodes subs = []` for a list of graph items) -/
 def bodyNodes : Tr → List Nat
@@ -388,6 +461,29 @@ def graphsOf : Tr → List Nat
   | .nil => []
   | .node _ _ _ subs rest => graphsOf subs ++ graphsOf rest
   | .graph g isG _ _ body rest => (if isG then [g] else []) ++ (graphsOf body ++ graphsOf rest)
+
+/-- the lists of values owned by the graphs under `t` (inputs, outputs, initializers, outputs of
+the graph's own nodes), one list per graph -/
+def ownedLists (iv : Nat → List Nat) : Tr → List (List Nat)
+  | .nil => []
+  | .node _ _ _ subs rest => ownedLists iv subs ++ ownedLists iv rest
+  | .graph g isG ins outs body rest =>
+    gvals iv g isG ins outs (bodyOuts body) :: (ownedLists iv body ++ ownedLists iv rest)
+
+/-- two lists share no element -/
+def DisjointL (a b : List Nat) : Prop := ∀ x ∈ a, x ∉ b
+
+/-- **ownership rule** (declarative, no traversal state): every value a node mentions is owned by the
+node's graph or by an enclosing graph (`V` = the values owned by the enclosing graphs and this
+graph) — wherever in those graphs it is defined: forward references and forward captures are fine -/
+def wellOwnedB (iv : Nat → List Nat) : Tr → List Nat → Bool
+  | .nil, _ => true
+  | .node _ ins outs subs rest, V =>
+    (nodeVals ins outs).all (fun v => V.contains v)
+    && wellOwnedB iv subs (V ++ nodeVals ins outs)
+    && wellOwnedB iv rest (bodyVis subs (V ++ nodeVals ins outs))
+  | .graph g isG ins outs body rest, V =>
+    wellOwnedB iv body (V ++ gvals iv g isG ins outs (bodyOuts body)) && wellOwnedB iv rest V
 
 /-- executable form of the hypothesis `Closed` (every initializer mentioned under `t` belongs to a
 `Graph` under `t`); `closedB_iff` in `Lemmas/NamesTotal.lean` -/
@@ -496,5 +592,70 @@ def renameValues (w : World) (pairs : List (Nat × String)) : World × Bool :=
     let wr := trip.foldl (fun wr t => popInit wr t.1 t.2.1) wr
     let wr := ordered.foldl setNameStep wr
     trip.foldl (fun wr t => addInit wr t.1 t.2.1) wr
+
+
+/-! ### Part C with the backing tensors (`value.const_value`, possibly shared by several values)
+
+`rename_values` renames the backing tensors *first* (`tensor.name = name` may be refused by a
+tensor object) and undoes those renames when one is refused, before anything else is touched. -/
+
+/-- the world plus the tensors: `constOf v` = the tensor backing value `v`; `frozen t` = assigning
+`tensor.name` raises -/
+structure TWorld extends World where
+  constOf : Nat → Option Nat
+  tname : Nat → Option String
+  frozen : Nat → Bool
+
+/-- `for tensor, old in reversed(renamed_tensors): tensor.name = old` (`undo` is kept reversed) -/
+def undoAll : List (Nat × Option String) → (Nat → Option String) → (Nat → Option String)
+  | [], tn => tn
+  | (t, old) :: r, tn => undoAll r (upd tn t old)
+
+/-- `tensor = value.const_value; if tensor is not None and value.name != name`: the tensor this
+pair renames, if any -/
+def renTensor (w : TWorld) (p : Nat × String) : Option Nat :=
+  match w.constOf p.1 with
+  | some t => if w.vname p.1 != some p.2 then some t else none
+  | none => none
+
+/-- the `try:` loop: rename the tensor of every pair whose value gets a different name; on a refusal
+undo and raise.  Returns the tensor names and whether it raised. -/
+def tensorLoop (w : TWorld) : List (Nat × String) → (Nat → Option String) → List (Nat × Option String) →
+    (Nat → Option String) × Bool
+  | [], tn, _ => (tn, false)
+  | p :: rest, tn, undo =>
+    match renTensor w p with
+    | some t =>
+      if w.frozen t then (undoAll undo tn, true)
+      else tensorLoop w rest (upd tn t (some p.2)) ((t, tn t) :: undo)
+    | none => tensorLoop w rest tn undo
+
+/-- the tensor side of `value.name = name` in the third loop (`Value.name` setter: "Rename the
+backing constant tensor") — the same assignments once more -/
+def tensorAssign (w : TWorld) : List (Nat × String) → (Nat → Option String) → (Nat → Option String)
+  | [], tn => tn
+  | p :: rest, tn =>
+    match renTensor w p with
+    | some t => tensorAssign w rest (upd tn t (some p.2))
+    | none => tensorAssign w rest tn
+
+/-- the phases of `rename_values` after validation, on the name / dictionary side -/
+def applyRename (w : World) (ordered : List (Nat × String)) : World × Bool :=
+  let trip := initTriples (groupByGraph w.initOf ordered)
+  let wr : World × Bool := (w, false)
+  let wr := trip.foldl (fun wr t => popInit wr t.1 t.2.1) wr
+  let wr := ordered.foldl setNameStep wr
+  trip.foldl (fun wr t => addInit wr t.1 t.2.1) wr
+
+/-- `rename_values` with backing tensors -/
+def renameValuesT (w : TWorld) (pairs : List (Nat × String)) : TWorld × Bool :=
+  match dedupPairs pairs [] with
+  | none => (w, true)
+  | some ordered =>
+    if !validateAll w.toWorld (groupByGraph w.initOf ordered) then (w, true) else
+    let tl := tensorLoop w ordered w.tname []
+    if tl.2 then ({ w with tname := tl.1 }, true) else
+    let wr := applyRename w.toWorld ordered
+    ({ w with toWorld := wr.1, tname := tensorAssign w ordered tl.1 }, wr.2)
 
 end IrVerif.Names
